@@ -28,6 +28,23 @@ func runC01(r *core.Run) (bool, string) {
 	if !calibrate(r, goose) {
 		return false, "interpreter calibration on the semantics suite failed (model or reader defect): no verdicts issued"
 	}
+	// directed layer (seed-independent)
+	var dpk []*gen.Package
+	dpk = append(dpk, gen.OperatorPackages()...)
+	dpk = append(dpk, gen.ConversionPackage(), gen.LvaluePackage())
+	dpk = append(dpk, gen.CorpusPackages()...)
+	var dp []*gorun.Pkg
+	for _, p := range dpk {
+		dp = append(dp, &gorun.Pkg{Name: p.Name, Files: map[string]string{p.Name + ".go": p.Source}})
+	}
+	dres, err := tvBatch(r, filepath.Join(r.Scratch, "c01-directed"), goose, dp, tvOptions{})
+	if err != nil {
+		fmt.Println("directed batch:", err)
+		return false, "directed corpus does not build (framework defect)"
+	}
+	c01Judge(r, dres, "directed")
+	r.Set("directed_packages", len(dp))
+	replayWitnesses(r, goose, "C01", tvOptions{}, c01Failing)
 	rng := core.NewRng(r.Seed, "c01-random")
 	nb := r.Pick(3, 60)
 	perBatch := r.Pick(14, 40)
@@ -104,7 +121,7 @@ func c01Judge(r *core.Run, res []*tvPkg, layer string) {
 				for _, s := range p.Source {
 					src = s
 				}
-				r.Violate("c01-mismatch-"+layer+"-"+p.Name+"-"+c.Case,
+				r.Violate("c01-mismatch-"+layer+"-"+p.Name+"-"+caseStem(c.Case),
 					fmt.Sprintf("Go returned %s but the emitted GooseLang gives %s", c.GoValue, c.GL),
 					map[string]interface{}{"case": c, "go_source": src, "v": p.VFile})
 			case strings.HasPrefix(c.Verdict, "inconclusive"):
@@ -116,6 +133,16 @@ func c01Judge(r *core.Run, res []*tvPkg, layer string) {
 			}
 		}
 	}
+}
+
+// caseStem drops the numeric suffix of a case name so that all argument vectors of one
+// function share a signature.
+func caseStem(c string) string {
+	i := len(c)
+	for i > 0 && (c[i-1] >= '0' && c[i-1] <= '9') {
+		i--
+	}
+	return strings.TrimSuffix(c[:i], "_")
 }
 
 func sigOf(msg string) string {
